@@ -269,6 +269,10 @@ def run(rep, tier, seed):
             stmts.append(f"#{m['name']}(" + ", ".join(r_val(a) for a in call["args"]) + ")"); tags.append(("call", k))
         for k, b in enumerate(cs["badcalls"]):
             stmts.append(f"#{m['name']}(" + ", ".join(BADARG[x] for x in b["kinds"]) + ")"); tags.append(("bad", k))
+        # history independence (MechFsm.Run is a FUNCTION of declaration and arguments): the same invocations once more in the
+        # same interpreter - after successful runs, after runs stopped by the limit, after rejected calls - must behave the same
+        for k, call in enumerate(cs["calls"]):
+            stmts.append(f"#{m['name']}(" + ", ".join(r_val(a) for a in call["args"]) + ")"); tags.append(("call", k, "again"))
         reqs.append({"id": len(reqs), "mode": "session", "stmts": stmts, "opts": {"trace": True, "max_steps": cs["maxsteps"]}})
         meta.append((cs, tags))
     log(f"[C17] replaying {len(reqs)} machines ({sum(len(r['stmts']) - 2 for r in reqs)} invocations) on the interpreter")
@@ -290,6 +294,7 @@ def run(rep, tier, seed):
             if tg[0] == "setup" and st.get("r") != "ok":
                 rep.fail(base + "/setup", f"{stx!r} failed: {st.get('class')} {st.get('msg')}", replay); bad = True; break
         if bad: continue
+        first = {}
         for stx, st, tg in zip(req["stmts"], steps, tags):
             if tg[0] == "setup": continue
             ok = st.get("r") == "ok"; cls = st.get("class")
@@ -304,6 +309,14 @@ def run(rep, tier, seed):
                 else: tally["reject"] += 1
                 continue
             call = cs["calls"][tg[1]]; exp = call["exp"]; failed = False
+            if len(tg) == 2: first[tg[1]] = (ok, got)
+            else:
+                # the repeated invocation is judged against the FIRST one only (what the first one should have been is judged above)
+                if first.get(tg[1]) != (ok, got):
+                    f_ok, f_got = first.get(tg[1], (None, None))
+                    rep.fail(machine_sig(cs) + "/history-dependent", f"{stx!r}: the first invocation gave {absval.short(f_got) if f_ok else 'an error'}, the same invocation later in the same interpreter gives {shown}", rp)
+                else: tally["repeat_same"] += 1
+                continue
             if exp == "out":
                 if call["v"]["t"] == "n": want = ('num', 'u64', Fraction(call["v"]["n"])); wtxt = call["v"]["n"]
                 else:
@@ -368,7 +381,7 @@ def run(rep, tier, seed):
                     "traces_validated_against_impl": ncalls + nruns, "machines": len(cases), "invocations_replayed": ncalls,
                     "machines_by_family": dict(collections.Counter(c["fam"] for c in cases)),
                     "exact_matched": tally["exact"], "limits_matched": tally["limit"], "rejects_matched": tally["reject"],
-                    "paths_matched": tally["path"], "free_outcomes": tally["free"],
+                    "paths_matched": tally["path"], "free_outcomes": tally["free"], "repeated_invocations_same": tally["repeat_same"],
                     "trace_runs_validated": nruns, "trace_events_validated": nev, "trace_runs_rejected": len(rej),
                     "negative_controls_passed": passed, "negative_controls_tried": tried, "exhaustive": True,
                     "rule": "every machine of the generated family (1-3 working states x arm shape from {step, dec, first, first2, stuck, wild, gout, out} x target, "
